@@ -263,8 +263,9 @@ static void report_abort(int kind)
 {
     snap_reset();
     if (g_st) shim_snapshot(g_st);
-    printf("X %ld %d %s ticks=%llu budget=%llu cyclen=%llu hits=%llu snap=%s\n", g_op, g_sid,
-           kind == 1 ? "SPIN" : "SLOW", g_ticks, g_budget, g_cyclen, g_hits, g_snaplen ? g_snap : "-");
+    printf("X %ld %d %s ticks=%llu budget=%llu cyclen=%llu hits=%llu in=%s snap=%s\n", g_op, g_sid,
+           kind == 1 ? "SPIN" : "SLOW", g_ticks, g_budget, g_cyclen, g_hits, g_curp ? "feed" : "end-or-start",
+           g_snaplen ? g_snap : "-");
 }
 
 static void do_check(sess_t *s, void *st, int phase)
